@@ -56,8 +56,23 @@ func (m *MessageCopyFromGenerator) Generate(writer io.Writer) (int, error) {
 func (m *MessageCopyFromGenerator) GenerateFields(g *j.Group) {
 	// Reset all oneOf fields in advance, otherwise if all oneOf branches would be null in the passed
 	// object, the oneOf field won't be nil
+	reset := make(map[string]struct{})
 	for _, m := range m.OneOfNames {
+		reset[m] = struct{}{}
 		g.Add(j.Id("obj." + m).Op("=").Nil())
+	}
+
+	// OneOfs declared by embedded messages are promoted to this struct together with their branches,
+	// they are not listed in OneOfNames. (Those of a nullable embedded message go with its pointer.)
+	for _, f := range m.Fields {
+		if f.OneOfName == "" || f.ParentIsOptionalEmbed {
+			continue
+		}
+		if _, ok := reset[f.OneOfName]; ok {
+			continue
+		}
+		reset[f.OneOfName] = struct{}{}
+		g.Add(j.Id("obj." + f.OneOfName).Op("=").Nil())
 	}
 
 	// Reset nullable embedded messages as well: they are allocated on demand by their fields below,
